@@ -99,6 +99,11 @@ def run(rep, tier):
             ok = (fn["n"].startswith(SB + "::") and fn["sn"] in ENTRY and ENTRY[fn["sn"]][0] == callee) or \
                  (fn["n"] == SB + "::get_app_pointer" and callee == "impl_get_unsandboxed_pointer") or \
                  fn["sn"].startswith("impl_")
+            if not ok and fn["n"].startswith(SB + "::") and fn.get("access") in (1, 2):
+                # a non-public helper shared by the entry points: its callers must all be entry points (R-C04-null then judges the
+                # null short-circuit and the choice of backend hook on each entry point with the helper inlined)
+                from .owners import reached_only_from
+                ok = reached_only_from(db, fn["n"], {SB + "::" + e_ for e_ in ENTRY} | {SB + "::get_app_pointer"})
             if ok:
                 rep.ok("R-C04-only-via", fn["n"], "calls %s" % callee, "%s | %s" % (label, loc), nontrivial=False)
             else:
